@@ -38,14 +38,31 @@ func allProps() []*PropSpec {
 func propC08() *PropSpec {
 	return &PropSpec{
 		ID:   "C08",
-		Rule: "every feasible control-flow path of Number/Decimal plus reference oracle over all lexemes of the stated lengths; a path is non-trivial if it completes with a distinct symbolic output",
+		Rule: "one case = one feasible control-flow path of Number/Decimal + reference oracle over ALL lexemes of the stated length (bytes symbolic); non-trivial = path completes with a distinct symbolic output term vector",
+		Assumptions: []string{
+			"input lexeme satisfies the reference recogniser of [+-]?(d+.?d*|.d+)([eE][+-]?d+)? (assumed in the harness, except in the *Total harnesses which take arbitrary bytes)",
+			"int is 64 bit",
+			"rounding clause read as |out-in| <= 1/2 * 10^(weight of the prec-th significant digit of the input)",
+		},
+		Outside: []string{"lexemes longer than the stated n", "rounding (prec>0) with symbolic exponent digits: exponent suffixes are taken from a fixed list", "exponents overflowing int beyond the 1e<19-20 digits> template"},
 		Jobs: func(tier string) []Job {
 			var js []Job
-			if tier == "quick" {
-				js = append(js, jobsN(".", "VerifNumberExact", rng(1, 6), "Number(in,0), all lexemes incl. exponent")...)
-			} else {
-				js = append(js, jobsN(".", "VerifNumberExact", rng(1, 8), "Number(in,0), all lexemes incl. exponent")...)
+			q := tier == "quick"
+			pick := func(a, b []int) []int {
+				if q {
+					return a
+				}
+				return b
 			}
+			js = append(js, jobsN(".", "VerifNumberExact", pick(rng(1, 6), rng(1, 8)), "Number(in,prec<=0), all lexemes incl. exponent: grammar, exact value, length, guard bytes")...)
+			js = append(js, jobsN(".", "VerifNumberNoExp", pick(rng(7, 9), rng(9, 13)), "Number(in,prec<=0), exponent-free lexemes")...)
+			js = append(js, jobsN(".", "VerifDecimalExact", pick(rng(1, 8), rng(1, 12)), "Decimal(in,prec<=0)")...)
+			js = append(js, jobsN(".", "VerifDecimalRound", pick(rng(2, 6), rng(2, 8)), "Decimal(in,prec 1..20): half-ulp bound")...)
+			js = append(js, jobsN(".", "VerifNumberRound", pick(rng(1, 4), rng(1, 6)), "Number(mantissa+suffix,prec 1..20): half-ulp bound")...)
+			js = append(js, jobsN(".", "VerifNumberTotal", pick(rng(0, 4), rng(0, 6)), "Number(arbitrary bytes, prec -1..20): no panic, in place")...)
+			js = append(js, jobsN(".", "VerifDecimalTotal", pick(rng(0, 5), rng(0, 7)), "Decimal(arbitrary bytes, prec -1..20): no panic, in place")...)
+			js = append(js, jobsN(".", "VerifNumberHugeExp", pick([]int{1}, []int{1, 2}), "mantissa e[+-]<17 digits><n symbolic digits>: exponent overflow guards around MinInt/MaxInt")...)
+			js = append(js, Job{Pkg: ".", Fn: "VerifTwinFails", N: 3, ExpectFail: true, Desc: "vacuity twin: assert(false) after the call must be reported"})
 			return js
 		},
 	}
